@@ -250,8 +250,21 @@ def run_case(spec, lines, out):
             col = op.get("col") or "-"
             line = f"todf $300 {int(op['index'])} {col} {int(op['sparse'])}"
             try:
+                before = np.array(arr.values, copy=True)
                 df = arr.to_df(index=op["index"], dim_to_columns=op.get("col"), sparse=op["sparse"])
                 emit(line, "ok " + ser_df(df))
+                same = np.array_equal(before, arr.values)
+                # an array holding NaN (missing data) is exported too: it keeps its NaN (harness-level: no NaN in the model)
+                if arr.values.size > 0:
+                    a3 = arr.copy()
+                    a3.values.flat[arr.values.size - 1] = np.nan
+                    keep = np.array(a3.values, copy=True)
+                    try:
+                        a3.to_df(index=op["index"], dim_to_columns=op.get("col"), sparse=op["sparse"])
+                    except Exception:
+                        pass
+                    same = same and np.array_equal(keep, a3.values, equal_nan=True)
+                emit("note export_leaves_array_unchanged", "ok" if same else "CHANGED")
             except Exception:
                 emit(line, "err")
             continue
